@@ -277,7 +277,7 @@ class Engine:
             return v
 
     # ----------------------------------------------------------- obligations
-    def prove(self, cond, label="", key=None, detail=None):
+    def prove(self, cond, label="", key=None, detail=None, hard=False):
         """Proof obligation: cond holds for every value on this path."""
         self._check_latch()
         self.stats["obligations"] += 1
@@ -286,11 +286,11 @@ class Engine:
         st[0] += 1
         _t0 = time.time()
         try:
-            self._prove(cond, label, key, detail, st)
+            self._prove(cond, label, key, detail, st, hard)
         finally:
             self.label_time[label] = self.label_time.get(label, 0.0) + time.time() - _t0
 
-    def _prove(self, cond, label, key, detail, st):
+    def _prove(self, cond, label, key, detail, st, hard=False):
         c = tobool(cond)
         if isinstance(c, bool):
             if not c:
@@ -308,6 +308,14 @@ class Engine:
             if w is not None:
                 self.stats["witnesses"] = self.stats.get("witnesses", 0) + 1
                 self._latch(Violation(label, w, detail() if callable(detail) else detail, key))
+        if hard:  # nonlinear real arithmetic known to defeat the default solver: purify + nlsat directly
+            r, model = self._decide_nlsat(z3.Not(c))
+            if r == z3.unsat:
+                self.stats["discharged"] += 1
+                st[1] += 1
+                return
+            if r == z3.sat:
+                self._violation(label, model, key, detail)
         r = self.check(z3.Not(c))
         if r == z3.unknown:
             w = self._numeric_witness(c, tries=60)
@@ -426,6 +434,14 @@ class Engine:
             self.reach += 1
             return True
         if r == z3.unknown:
+            # a numeric assignment satisfying every path constraint is a reachability witness too
+            if self._numeric_witness(z3.BoolVal(False), tries=200) is not None:
+                self.reach += 1
+                return True
+            r2, _ = self._decide_nlsat(z3.BoolVal(True))
+            if r2 == z3.sat:
+                self.reach += 1
+                return True
             self._latch(Inconclusive("solver unknown in reachability twin"))
         return False
 
